@@ -360,6 +360,13 @@ impl EnfWorld {
                 "e.clear" => res_u(rt.block_on(async { with_e!(e, x => x.clear_policy().await) })),
                 "e.load" => res_u(rt.block_on(async { with_e!(e, x => x.load_policy().await) })),
                 "e.loadc" => { let r = res_u(rt.block_on(async { with_e!(e, x => x.load_policy().await) })); if r.starts_with("err") { "err".into() } else { r } }
+                "e.loadfc" => {
+                    // error class only (the kind of a failed load is adapter-specific)
+                    let fp = sv(f[1]); let fg = sv(f[2]);
+                    let filt = Filter { p: fp.iter().map(|s| s.as_str()).collect(), g: fg.iter().map(|s| s.as_str()).collect() };
+                    let r = res_u(rt.block_on(async { with_e!(e, x => x.load_filtered_policy(filt).await) }));
+                    if r.starts_with("err") { "err".into() } else { r }
+                }
                 "e.loadf" => {
                     let fp = sv(f[1]); let fg = sv(f[2]);
                     let filt = Filter { p: fp.iter().map(|s| s.as_str()).collect(), g: fg.iter().map(|s| s.as_str()).collect() };
